@@ -12,6 +12,9 @@
 #include "soxr-lsr.c"
 #include "abs_engine.h"
 #include "api_common.h"
+#ifdef VF_NATIVE
+static int vf_x87_ie;      /* the model's flag does not exist in the native build (real asm) */
+#endif
 
 static size_t eng_taken(unsigned c) { return vf_objs[c].in_total + vf_objs[c].inbuf_n; }
 static size_t fn_seq_base(void) { return eng_taken(0); }
